@@ -17,6 +17,7 @@ import (
 	"fmt"
 	"os"
 	"os/signal"
+	"sync"
 	"syscall"
 	"time"
 
@@ -201,5 +202,117 @@ func init() {
 		dd, mm := provide(q.Docs)
 		b, _ := json.Marshal(faultResp{LD: len(dd), LM: len(mm)})
 		return storectl.Resp{Extra: b}, nil
+	})
+}
+
+// ---------------------------------------------------------------------------- concurrent group with a failing member
+
+type cfReq struct {
+	Bulks     [][]PDoc `json:"bulks"`
+	Fail      int      `json:"fail"` // index in Bulks of the (big) bulk whose write must fail
+	File      string   `json:"file"` // docs | meta (meta falls back to docs when it cannot be placed)
+	Cut       int      `json:"cut"`
+	StaggerUs []int    `json:"stagger_us"`
+}
+
+type cfResp struct {
+	Acked []bool `json:"acked"`
+	LD    []int  `json:"ld"`
+	LM    []int  `json:"lm"`
+	OffD  int64  `json:"off_d"`
+	OffM  int64  `json:"off_m"`
+	Limit int64  `json:"limit"`
+	File  string `json:"file"`
+	Err   string `json:"err,omitempty"`
+	DHex  string `json:"d_hex,omitempty"` // blocks of the failing bulk
+	MHex  string `json:"m_hex,omitempty"`
+}
+
+func init() {
+	// cfbulk: the bulks concurrently (one Append attempt each) under a file-size limit that every
+	// small bulk passes in any lock order and the big one exceeds in any lock order
+	storectl.Register("cfbulk", func(c *storectl.Child, r storectl.Req) (storectl.Resp, error) {
+		var q cfReq
+		if err := json.Unmarshal(r.Extra, &q); err != nil {
+			return storectl.Resp{}, err
+		}
+		track(c)
+		type blk struct{ d, m []byte }
+		blks := make([]blk, len(q.Bulks))
+		out := cfResp{Acked: make([]bool, len(q.Bulks)), OffD: trkD, OffM: trkM, File: q.File}
+		var sumD, sumM int64
+		for i, b := range q.Bulks {
+			d, m := provide(b)
+			blks[i] = blk{d, m}
+			out.LD, out.LM = append(out.LD, len(d)), append(out.LM, len(m))
+			if i != q.Fail {
+				sumD += int64(len(d))
+				sumM += int64(len(m))
+			}
+		}
+		ldB, lmB := int64(len(blks[q.Fail].d)), int64(len(blks[q.Fail].m))
+		reply := func() (storectl.Resp, error) {
+			b, _ := json.Marshal(out)
+			return storectl.Resp{Extra: b}, nil
+		}
+		var limit int64 = -1
+		if q.File == "meta" {
+			lo := max(trkD+sumD+ldB, trkM+sumM)
+			hi := trkM + lmB
+			if hi > lo {
+				limit = lo + min(int64(q.Cut), hi-lo-1)
+			} else {
+				out.File = "docs"
+			}
+		}
+		if limit < 0 {
+			if ldB <= sumD || trkD+sumD < trkM+sumM-0 && trkD+ldB <= trkM+sumM {
+				out.Err = "unplaceable"
+				return reply()
+			}
+			lo := max(trkD+sumD, trkM+sumM) // every small block passes
+			hi := trkD + ldB               // the big docs block fails even when it goes first
+			if hi <= lo {
+				out.Err = "unplaceable"
+				return reply()
+			}
+			limit = lo + min(int64(q.Cut), hi-lo-1)
+		}
+		out.Limit = limit
+		out.DHex, out.MHex = hex.EncodeToString(blks[q.Fail].d), hex.EncodeToString(blks[q.Fail].m)
+		signal.Ignore(syscall.SIGXFSZ)
+		var old syscall.Rlimit
+		if err := syscall.Getrlimit(syscall.RLIMIT_FSIZE, &old); err != nil {
+			return storectl.Resp{}, err
+		}
+		if err := syscall.Setrlimit(syscall.RLIMIT_FSIZE, &syscall.Rlimit{Cur: uint64(limit), Max: old.Max}); err != nil {
+			return storectl.Resp{}, err
+		}
+		var wg sync.WaitGroup
+		start := make(chan struct{})
+		for i := range blks {
+			wg.Add(1)
+			go func(i int) {
+				defer wg.Done()
+				<-start
+				if i < len(q.StaggerUs) && q.StaggerUs[i] > 0 {
+					t0 := time.Now()
+					for time.Since(t0) < time.Duration(q.StaggerUs[i])*time.Microsecond {
+					}
+				}
+				out.Acked[i] = c.FM.Append(newOnceCtx(1), blks[i].d, blks[i].m) == nil
+			}(i)
+		}
+		close(start)
+		wg.Wait()
+		syscall.Setrlimit(syscall.RLIMIT_FSIZE, &old)
+		c.FM.WaitIdle()
+		for i := range blks {
+			if out.Acked[i] {
+				trkD += int64(len(blks[i].d))
+				trkM += int64(len(blks[i].m))
+			}
+		}
+		return reply()
 	})
 }
